@@ -327,7 +327,13 @@ func (o *oracle) oracleGetters() {
 			err  string
 			repr string
 		}
-		run := func(raw []byte, spare int, poison byte) (out outcome) {
+		run := func(raw []byte, spare int, poison byte, dirty bool) (out outcome) {
+			stale := func() net.IP { // what a getter kept between messages may still hold
+				if !dirty {
+					return nil
+				}
+				return net.IP(bytes.Repeat([]byte{0xEE}, 16))
+			}
 			d := new(Message)
 			if err := Decode(inBuffer(raw, spare, poison), d); err != nil {
 				o.failf("reference message %s does not decode: %v", hexs(raw), err)
@@ -340,22 +346,27 @@ func (o *oracle) oracleGetters() {
 				switch t {
 				case 0x0001:
 					var g MappedAddress
+					g.IP = stale()
 					err = g.GetFrom(d)
 					out.repr = fmt.Sprintf("%v:%d", g.IP, g.Port)
 				case 0x0020:
 					var g XORMappedAddress
+					g.IP = stale()
 					err = g.GetFrom(d)
 					out.repr = fmt.Sprintf("%v:%d", g.IP, g.Port)
 				case 0x8023:
 					var g AlternateServer
+					g.IP = stale()
 					err = g.GetFrom(d)
 					out.repr = fmt.Sprintf("%v:%d", g.IP, g.Port)
 				case 0x802b:
 					var g ResponseOrigin
+					g.IP = stale()
 					err = g.GetFrom(d)
 					out.repr = fmt.Sprintf("%v:%d", g.IP, g.Port)
 				case 0x802c:
 					var g OtherAddress
+					g.IP = stale()
 					err = g.GetFrom(d)
 					out.repr = fmt.Sprintf("%v:%d", g.IP, g.Port)
 				case 0x0006:
@@ -395,10 +406,10 @@ func (o *oracle) oracleGetters() {
 			return out
 		}
 		pos := o.rng.Intn(3)
-		a := run(build(0x00, pos), 0, 0)
-		b := run(build(0xFF, pos), 1+o.rng.Intn(64), 0xFF)
+		a := run(build(0x00, pos), 0, 0, false)
+		b := run(build(0xFF, pos), 1+o.rng.Intn(64), 0xFF, o.rng.Intn(2) == 0)
 		if t != 0x0008 && t != 0x8028 && a != b {
-			o.failf("getter for %#x on value %x (position %d): result depends on padding/neighbours/capacity: %v vs %v", t, val, pos, a, b)
+			o.failf("getter for %#x on value %x (position %d): result depends on padding/neighbours/capacity/what a reused getter held before: %v vs %v", t, val, pos, a, b)
 		}
 	}
 }
